@@ -168,7 +168,8 @@ def exhaustive(ctx, fa, maxlen):
         alphabet = [("write", v) for v in recs.values()] + [("flush",), ("wblock", 0, 0, 1), ("wblock", 1, 0, 0),
                                                              ("reopen", {"schema": OTHER_SCHEMA, "codec": "bzip2", "meta": {"m": "2"}}),
                                                              ("reopen", {"pos": "half"})]
-        configs = [("null", 1), ("deflate", 25), ("null", 100000)] if fam == "A" else [("null", 100000)] if fam in ("F", "G") else [("null", 1), ("deflate", 100000)]
+        configs = [("null", 1), ("deflate", 25), ("null", 100000)] if fam == "A" else [("null", 100000)] if fam in ("F", "G") else \
+            [("null", 1), ("deflate", 100000)] + [(c_, 100000) for c_ in ("xz", "bzip2") if c_ in p_file.available_codecs(fa)]
         for codec, interval in configs:
             for n in range(1, maxlen + 1):
                 for seq in itertools.product(alphabet, repeat=n):
